@@ -173,10 +173,19 @@ MOVED = st.tuples(st.just("RNFR>CWD>RNTO"), st.sampled_from(["f", "a/f", "./f", 
                   st.sampled_from(["a", "/a", "/a/b", "..", "a/b", "/"])).map(lambda t: (t[0], t[1] + "|" + t[2]))
 
 
+# ... and a rename elsewhere in the tree: the working directory is stored state too. The renamed entry's path is a string
+# prefix (not a path prefix) of the working directory, or an ancestor of it; relative arguments afterwards still address
+# locations below the directory the session entered
+NEARBY = st.tuples(st.just("CWD>RENAME_NEARBY>REL"), st.sampled_from(["/a|/ab/c", "/a|/ab", "/f|/fx", "/a/b|/a/bb/c", "/a|/a/b"]))
+
+
 def _expand(cmds):
     out = []
     for verb, arg in cmds:
-        if verb == "RNFR>RELOGIN>RNTO":
+        if verb == "CWD>RENAME_NEARBY>REL":
+            victim, _, cwd = arg.partition("|")
+            out += [("MKD", cwd), ("CWD", cwd), ("RNFR", victim), ("RNTO", "/renamed"), ("MLST", "f"), ("MKD", "sub"), ("MLST", "."), ("CDUP", "")]
+        elif verb == "RNFR>RELOGIN>RNTO":
             out += [("RNFR", arg), ("RELOGIN", ""), ("RNTO", "moved")]
         elif verb == "RNFR>CWD>RNTO":
             src, _, to = arg.partition("|")
@@ -187,7 +196,7 @@ def _expand(cmds):
 
 
 WIRE = st.tuples(st.sampled_from(["mem", "fs"]),
-                 st.lists(st.one_of(st.tuples(st.sampled_from(VERBS), WPATH), st.tuples(st.sampled_from(VERBS), WPATH), ACROSS, MOVED),
+                 st.lists(st.one_of(st.tuples(st.sampled_from(VERBS), WPATH), st.tuples(st.sampled_from(VERBS), WPATH), ACROSS, MOVED, NEARBY),
                           min_size=3, max_size=25).map(_expand),
                  # home_path as configured: any absolute spelling ('..' detours, doubled slashes) of a directory in the tree
                  st.sampled_from(["/", "/a", "/a/b", "/a/b/..", "/a/../a/b", "//a", "/a/./b/", "/../a"]))
